@@ -261,7 +261,7 @@ class HKS:
 '''),
 }
 PRIMARY_WEIGHTS = [("none", 5), ("SA", 4), ("SAnw", 2), ("DA", 2), ("PS", 3), ("PSw", 2), ("PSe", 2), ("PD", 2),
-                   ("PSstr", 1), ("EXC", 1), ("SAH", 3), ("SAV", 2), ("SAV_P", 2), ("SAV_PD", 1), ("SA_Psh", 2),
+                   ("PSstr", 2), ("EXC", 1), ("SAH", 3), ("SAV", 2), ("SAV_P", 2), ("SAV_PD", 1), ("SA_Psh", 2),
                    ("SA_PshD", 1), ("SAC", 3), ("PG", 2), ("PGD", 1), ("DAH", 1)]
 MIXIN_WEIGHTS = [("none", 10), ("MixE", 2), ("MixD", 1), ("HK", 2), ("HKS", 2)]
 USER_KINDS = ["func", "cm", "sm", "prop:get", "prop:set", "prop:del", "cached", "getattr", "descr", "wrapped", "lambda"]
@@ -297,6 +297,8 @@ def gen_recipe(rng):
         pool += ["a", "a"]
     if prim in ("PS", "PSw"):
         pool += ["s1", "s1"]
+    if prim == "PSstr":
+        pool += ["ab", "ab"]
     rng.shuffle(pool)
     r["fields"] = list(dict.fromkeys(pool[:rng.choice([0, 1, 1, 2, 2, 3])]))
     if prim in ("SA_Psh", "SA_PshD") and "a" not in r["fields"]:
@@ -354,7 +356,7 @@ def gen_recipe(rng):
             members.append({"kind": "hook_own", "name": "__attrs_init_subclass__"})
     rng.shuffle(members)
     r["members"] = members
-    r["own_slots_weakref"] = (not r["bases"]) and rng.random() < 0.04
+    r["own_slots_weakref"] = (not r["bases"]) and rng.random() < 0.08
     # access sequences over two instances
     names = [m["name"] for m in members if m["kind"] == "cached"]
     if prim == "SAC":
@@ -416,7 +418,7 @@ def member_lines(m):
 
 
 def field_default(name):
-    return {"x": 1, "y": 2, "z": 3, "a": 20, "s1": 30}[name]
+    return {"x": 1, "y": 2, "z": 3, "a": 20, "s1": 30, "ab": 40}[name]
 
 
 def source_of(r):
@@ -814,21 +816,24 @@ def _run_body(r, mod):
     base_terms = []
     base_fields = None
     for bi, bc in enumerate(mro):
-        items = []
-        for n in getattr(bc, "__slots__", []):
+        def slot_item(n):
             try:
                 d = getattr(bc, n)
             except AttributeError:
-                items.append("(%s, None)" % q(n))
-            else:
-                items.append("(%s, Some %d)" % (q(n), obj_id(d)))
+                return q(n), "None"
+            return q(n), "(Some %d)" % obj_id(d)
+        raw_slots = getattr(bc, "__slots__", [])
+        if isinstance(raw_slots, str):
+            slots_t = "(SlotsStr %s %s)" % slot_item(raw_slots)
+        else:
+            slots_t = "(SlotsSeq %s)" % lst("(%s, %s)" % slot_item(n) for n in raw_slots)
         os_ = bc.__dict__.get("__attrs_own_setattr__")
         lay = bc.__dict__.get("_c08_layer")
         if lay is None and "__getattr__" in bc.__dict__:
             raise vlib.Infra("base %r defines __getattr__ without a _c08_layer marker" % bc)
         lay_t = "None" if lay is None else "(Some (Build_layer %s %s))" % (lst(q(x) for x in lay[0]), opt(lay[1], q))
         base_terms.append("(Build_base %d %s %s %s %s %s %s %s)" % (
-            2 + bi, lst(items), b(bc.__dict__.get("__weakref__", None) is not None), b("__dict__" in bc.__dict__),
+            2 + bi, slots_t, b(bc.__dict__.get("__weakref__", None) is not None), b("__dict__" in bc.__dict__),
             "None" if os_ is None else "(Some %s)" % b(bool(os_)), b(bc in orig.__bases__),
             b("__attrs_init_subclass__" in bc.__dict__), lay_t))
         if base_fields is None and "__attrs_attrs__" in bc.__dict__:
@@ -1332,6 +1337,40 @@ def rerun(inp):
     raise vlib.Infra("unknown case family %r" % (fam,))
 
 
+def F21_C08_weakref_own_slots():
+    """was K08.1 (repaired by 0abf7ae): own __slots__ listing __weakref__ + weakref_slot=True."""
+    @attr.s(slots=True, weakref_slot=True)
+    class W:
+        __slots__ = ("__weakref__",)
+        x = attr.ib(default=1)
+    try:
+        weakref.ref(W())
+    except TypeError:
+        return "weakref_slot=True ignored for a class body that lists __weakref__ in __slots__: instances not weak-referenceable"
+    if "__weakref__" not in W.__slots__:
+        return "new __slots__ %r lacks __weakref__" % (W.__slots__,)
+
+
+def F22_C08_string_slots_base():
+    """was K08.2 (repaired by e7beec5): a base whose __slots__ is a single string."""
+    class P:
+        __slots__ = "ab"
+    try:
+        @attr.s(slots=True)
+        class C(P):
+            x = attr.ib(default=1)
+
+        @attr.s(slots=True)
+        class D(P):
+            ab = attr.ib(default=2)
+    except AttributeError as e:
+        return "slots=True cannot build a class below a base with a string __slots__: AttributeError %s" % e
+    if C.__slots__ != ("x", "__weakref__") or D.__slots__ != ("__weakref__",) or D.__dict__.get("ab") is not P.__dict__["ab"]:
+        return "unexpected layout: %r %r" % (C.__slots__, D.__slots__)
+    if (C().x, D().ab) != (1, 2) or hasattr(C(), "__dict__"):
+        return "instances do not behave"
+
+
 def corpus():
     import importlib.util
     import os
@@ -1345,7 +1384,8 @@ def corpus():
             except Exception as e:       # a reproducer that cannot even build its class is a finding too
                 return "reproducer raised %s: %s" % (type(e).__name__, e)
         return run
-    return [(k, safe(f)) for k, f in m.ALL.items() if "_C08_" in k]
+    own = [("F21_C08_weakref_own_slots", F21_C08_weakref_own_slots), ("F22_C08_string_slots_base", F22_C08_string_slots_base)]
+    return [(k, safe(f)) for k, f in list(m.ALL.items()) + own if "_C08_" in k]
 
 
 def distribution(cases):
